@@ -44,6 +44,9 @@ pub struct Plan {
     /// take the history as soon as the evaluation is finished, before cleanups that are still on offer are
     /// acknowledged (and once more afterwards: it must not depend on when cleanups are acknowledged)
     pub history_before_late_acks: bool,
+    /// call abort_remaining() once more after the evaluation has finished on its own (a driver that is interrupted at
+    /// the very end): it must succeed and change nothing
+    pub abort_when_finished: bool,
 }
 impl Default for Plan {
     fn default() -> Self {
@@ -60,6 +63,7 @@ impl Default for Plan {
             sched_seed: 0,
             trace: false,
             history_before_late_acks: false,
+            abort_when_finished: false,
         }
     }
 }
@@ -1135,6 +1139,24 @@ pub fn evaluate(
     d.rep.max_depth = pypipegraph2::verif::take_max_depth();
     if d.rep.started.len() != d.rep.started_set().len() {
         viol!(d, "C05", "started-twice", "", "a job was started twice: {:?}", d.rep.started);
+    }
+    if plan.abort_when_finished && d.finished && !d.did_abort && !d.rep.fatal {
+        let before = fingerprint(&d.ev, g);
+        let r = d.call("abort".to_string(), |ev| ev.abort_remaining());
+        if let Err(e) = &r {
+            viol!(d, "C10", "abort-call-failed", format!("when-finished:{}", error_sig(g, e)), "abort_remaining on the finished evaluation -> {}", e);
+        } else {
+            let fin = d.ev.is_finished();
+            if !fin || !d.ev.query_ready_to_run().is_empty() || !d.ev.query_jobs_running().is_empty() {
+                viol!(d, "C10", "not-quiescent-after-abort", "when-finished", "abort_remaining on the finished evaluation: finished={} ready={:?} running={:?}", fin, d.ev.query_ready_to_run(), d.ev.query_jobs_running());
+            }
+            let after = fingerprint(&d.ev, g);
+            if before != after {
+                viol!(d, "C17", "abort-of-finished-evaluation-changed-state", "", "every job was finished, yet abort_remaining changed the reported state:\n before {}\n after  {}", before, after);
+            }
+            pypipegraph2::verif::take_transitions();
+        }
+        d.rep.observations += 1;
     }
     d.rep.final_snap = d.snap.clone();
     if !d.rep.fatal && d.finished {
